@@ -42,6 +42,8 @@ def search(prop, violations):
         return {"note": "no witness families available"}
     exe, err = build()
     if exe is None:
+        import sys
+        print("NOTE property=%s: the witness crate does not build against the current tree, no failing input can be searched for: %s" % (prop, (err or "").strip().splitlines()[-1] if err else ""), file=sys.stderr)
         return {"note": "replay crate does not build against the current tree", "build_error": err}
     fams = sorted(set([prop] + [v.get("family", prop) for v in violations]))
     out = {"families": fams, "tried": 0}
